@@ -11,6 +11,7 @@ import (
 	"github.com/alephium/wormhole-fork/node/pkg/processor"
 	gossipv1 "github.com/alephium/wormhole-fork/node/pkg/proto/gossip/v1"
 	"github.com/alephium/wormhole-fork/node/verifh/keys"
+	"github.com/alephium/wormhole-fork/node/verifh/vtime"
 	"github.com/ethereum/go-ethereum/common"
 	"github.com/ethereum/go-ethereum/crypto"
 )
@@ -49,7 +50,7 @@ func (e Event) String() string {
 	case "lb":
 		return fmt.Sprintf("LB(%d)", e.LB)
 	case "obs":
-		k := []string{"valid", "forged", "claims-other", "other-digest"}[e.ObsKind]
+		k := ObsKinds[e.ObsKind]
 		return fmt.Sprintf("Obs(g=%d,d=%d,%s)", e.G, e.D, k)
 	case "in":
 		return fmt.Sprintf("In(m=%d,%s,set=%d)", e.M, InVariants[e.InVar], e.InSet)
@@ -61,7 +62,13 @@ func (e Event) String() string {
 	return e.Kind
 }
 
-var InVariants = []string{"quorum", "quorum-1", "all-members", "one-bad-signature", "descending", "duplicate-index", "wrong-body", "names-other-set", "quorum-plus-outsider"}
+var InVariants = []string{"quorum", "quorum-1", "all-members", "one-bad-signature", "descending", "duplicate-index", "wrong-body", "names-other-set", "quorum-plus-outsider",
+	// malformed shapes (C13)
+	"nil-bytes", "56-bytes", "57-bytes", "58-bytes", "255-signatures-announced", "empty-payload-quorum", "version-2", "truncated-signature"}
+
+var ObsKinds = []string{"valid", "forged", "claims-other", "other-digest",
+	// malformed shapes (C13): a valid member signature with one field bent
+	"hash-empty", "hash-31", "hash-33", "sig-empty", "sig-64", "sig-66", "addr-nil", "addr-19", "addr-21", "all-nil"}
 
 var unknownDigest = crypto.Keccak256([]byte("a digest of no message"))
 
@@ -95,6 +102,30 @@ func (c *Config) Materialise(n *Node, e Event) interface{} {
 			o.Addr = keys.Addr(e.Claim).Bytes()
 		case 3:
 			o.Signature = keys.Sign(e.G, crypto.Keccak256(d))
+		default:
+			o.Signature = keys.Sign(e.G, d)
+			switch ObsKinds[e.ObsKind] {
+			case "hash-empty":
+				o.Hash = nil
+			case "hash-31":
+				o.Hash = d[:31]
+			case "hash-33":
+				o.Hash = append(append([]byte{}, d...), 0)
+			case "sig-empty":
+				o.Signature = nil
+			case "sig-64":
+				o.Signature = o.Signature[:64]
+			case "sig-66":
+				o.Signature = append(o.Signature, 0)
+			case "addr-nil":
+				o.Addr = nil
+			case "addr-19":
+				o.Addr = o.Addr[1:]
+			case "addr-21":
+				o.Addr = append([]byte{0}, o.Addr...)
+			case "all-nil":
+				o = &gossipv1.SignedObservation{}
+			}
 		}
 		return o
 	case "in":
@@ -120,6 +151,9 @@ func (c *Config) Inbound(e Event) []byte {
 		return s
 	}
 	var sigs []DSig
+	if len(set) == 0 {
+		q = 0
+	}
 	first := func(k int) {
 		for i := 0; i < k && i < len(set); i++ {
 			sigs = append(sigs, sig(i, set[i], digest))
@@ -127,6 +161,33 @@ func (c *Config) Inbound(e Event) []byte {
 	}
 	named := uint32(e.InSet)
 	switch InVariants[e.InVar] {
+	case "nil-bytes":
+		return nil
+	case "56-bytes", "57-bytes", "58-bytes":
+		first(0)
+		b := Encode(1, named, nil, body)
+		k := map[string]int{"56-bytes": 56, "57-bytes": 57, "58-bytes": 58}[InVariants[e.InVar]]
+		for len(b) < k {
+			b = append(b, 0)
+		}
+		return b[:k]
+	case "255-signatures-announced":
+		first(q)
+		b := Encode(1, named, sigs, body)
+		b[5] = 255
+		return b
+	case "empty-payload-quorum":
+		body = body[:53]
+		digest = crypto.Keccak256(crypto.Keccak256(body))
+		first(q)
+		return Encode(1, named, sigs, body)
+	case "version-2":
+		first(q)
+		return Encode(2, named, sigs, body)
+	case "truncated-signature":
+		first(q)
+		b := Encode(1, named, sigs, body)
+		return b[:6+66*len(sigs)-3]
 	case "quorum":
 		// the LAST q members, so that signer subsets differ from "first q"
 		for i := len(set) - q; i < len(set); i++ {
@@ -313,9 +374,12 @@ func ImplKey(n *Node, store map[string][]byte, withTimes bool) string {
 	for _, e := range n.P.VerifSnapshot() {
 		fmt.Fprintf(&sb, "%s:%v:%v:%d:%d:%v:%v:%d:%v", e.Digest[:8], shortAll(e.Signers), e.HasOurVAA, e.OurVAASetIdx, e.SnapSetIdx, e.Submitted, e.Settled, e.RetryCount, e.HasOurMsg)
 		if withTimes {
-			now := T0 // ages relative to the virtual now are computed by the caller through vtime
-			_ = now
-			fmt.Fprintf(&sb, ":%d:%d", e.FirstObserved.Unix(), e.LastRetry.Unix())
+			now := vtime.Now()
+			lr := int64(-1)
+			if !e.LastRetry.IsZero() {
+				lr = int64(now.Sub(e.LastRetry) / time.Second)
+			}
+			fmt.Fprintf(&sb, ":age=%d:sinceRetry=%d", int64(now.Sub(e.FirstObserved)/time.Second), lr)
 		}
 		sb.WriteString(";")
 	}
